@@ -53,6 +53,15 @@ def gen_pipe(rng, prob, with_val=True, multiscale=False):
     return steps
 
 
+def is_empty_dataset(ds):
+    """the right product of a run without validation step: an EMPTY dataset (not None, not a dataset with leftovers)"""
+    return ds is not None and hasattr(ds, "data_vars") and len(ds.data_vars) == 0
+
+
+def describe(ds):
+    return list(ds.data_vars) if hasattr(ds, "data_vars") else repr(type(ds))
+
+
 def rel_equal(cid, A, B, rows, cols):
     names = sorted(set(A) | set(B))
     missing = [x for x in names if x not in A or x not in B]
@@ -123,14 +132,14 @@ def run(tier):
             import pandora
             _, _, m_used = dp.run_pipeline(*dp.make_datasets(prob), {"pipeline": {nm: dict(c) for nm, c in steps}})
             l4, r4 = pandora.run(m_used, *dp.make_datasets(prob), {"pipeline": {nm: dict(c) for nm, c in steps_nv}})
-            if len(r4.data_vars) != 0:
+            if not is_empty_dataset(r4):
                 chk.violation("right_empty_without_validation", {"relation": "no_validation_after_validation_run"},
-                              {"features": feat, "vars": list(r4.data_vars)},
+                              {"features": feat, "vars": describe(r4)},
                               "right dataset not empty without validation step on a machine that ran a validation pipeline before")
         except Exception as exc:  # pylint: disable=broad-except
             chk.violation("total", dict(measure=measure, exception=type(exc).__name__), {"features": feat, "exception": repr(exc)[:300]}, "")
-        if len(r3.data_vars) != 0:
-            chk.violation("right_empty_without_validation", {"relation": "no_validation"}, {"features": feat, "vars": list(r3.data_vars)},
+        if not is_empty_dataset(r3):
+            chk.violation("right_empty_without_validation", {"relation": "no_validation"}, {"features": feat, "vars": describe(r3)},
                           "right dataset not empty without validation step")
         if not feat["interp"]:
             cid = f"n{k}"
